@@ -160,7 +160,7 @@ def gen_scenario(ctx, k):
         else:
             addr, t, data = gen_feedback(rng, m, cfg, nodes)
             sc.add(up(model.build_msg(addr, 0, t, data)), 'quiesce')
-        if rng.random() < 0.08:
+        if rng.random() < 0.4:
             sc.add(f'snap s{i + 1}')
     sc.add('snap end', 'stop')
     return sc.text(), cfg, nodes, hooks
